@@ -18,7 +18,7 @@ EXTENDS Integers, Sequences, FiniteSets, TLC, Json, IOUtils, SequencesExt
 
 Dialects == {"old", "new"}              \* `@` %f `array`   vs   `#` %d.%08d `array[N]` {queue} <conn>
 Marks    == {".", ","}                  \* decimal mark of the locale (old dialect only)
-Queues   == {"none", "word", "words"}   \* {Default Queue} etc. (new dialect only)
+Queues   == {"none", "empty", "word", "words"}   \* {Default Queue} etc., {} for a queue named "" (new dialect only)
 Tags     == {"none", "num"}             \* <conn_id> (patched libwayland only)
 
 IntClasses   == {"int0", "intpos", "intneg", "intmin", "intmax", "uintbig"}
